@@ -39,7 +39,12 @@ ASSUMPTIONS = [
     "in tol mode the step is the documented choose_time_step formula (tol / (T * mean term norm)) ** (1 / order), "
     "recomputed here from ham.terms with numpy",
     "periodic chains are evolved with split cutoff 1e-13 (cutoff 0 grows bonds exponentially) and compared at 1e-8",
-    "odd periodic chains: only time book-keeping, norm and first-order convergence are required (property text)",
+    "odd periodic chains: only time book-keeping, norm and first-order convergence are required (property text); the slope "
+    "bound there is 0.5, not 0.6: queue merging joins n-2 or n-1 of the non-commuting right sweeps, so the first order "
+    "coefficient is (2n-2)/n^2 .. (2n-1)/n^2 and the fitted slope over n = 1, 2, 4 is 0.596-0.71 on correct code",
+    "split_opts method='eig' (singular values from an eigen-decomposition) is judged at 1e-5 instead of EXACT64",
+    "TEBDGen / get_trotter_gates: the ordering in force is read back from the object (`tebd.ordering`, "
+    "`get_auto_ordering`) after checking it is a permutation of the pairs; the product over it is the oracle",
 ]
 
 TOL_STATE = EXACT64
